@@ -524,6 +524,13 @@ func (rl *Shell) transposeWords() {
 		transposeWith, toTranspose = toTranspose, transposeWith
 	}
 
+	// Both words might overlap or be the same one, when there
+	// is no other word to transpose with: don't do anything.
+	if wepos > tbpos {
+		rl.cursor.Set(startPos)
+		return
+	}
+
 	// Assemble the newline
 	begin := string((*rl.line)[:wbpos])
 	newLine := append([]rune(begin), []rune(toTranspose)...)
